@@ -186,6 +186,12 @@ PROPS['C01']['rule'] += ('; plus seeded (schema, value) pairs (nested options/se
 
 
 def search_side(run):
+    # the side-table model *is* the statement "every OS-level message carries exactly its own attachments": a program on which
+    # the real send and the model disagree about the bytes / attachments / result of a message is a concrete failing input
+    for t in run.t_broken:
+        if t.get('request', '').startswith('side '):
+            return {'implementation_vs_specification': {'program': t['request'], 'real_crate': t.get('impl'), 'model': t.get('model')},
+                    'replay_cmd': 'harness/target-default/debug/vh ' + ' '.join(t.get('scenario', []))}
     for k in range(3):
         rc, cases, err = vh(['wire', '--mode', 'side', '--seed', str(500 + k), '--n', '3000'])
         bad = [c for c in cases if c.get('oracle')]
@@ -516,9 +522,11 @@ PROPS['C19'] = {
     'modules': ['IpcModel.Props.C03', 'IpcModel.Props.C09'],
     'theorems': ['C03.C03_iff', 'C09.C09_error', 'C09.C09_transit'],
     'builds': ['default', 'memfd', 'force-inprocess'],
-    'scenarios': world_scen(['default', 'memfd', 'force-inprocess'], 300, 6000),
+    'scenarios': (lambda a: (lambda tier, seed: a(tier, seed) + [{'build': b, 'args': ['set', '--seed', str(seed + k), '--n', str((3000 if tier == 'thorough' else 200) // 2), '--tier', tier]}
+                                                       for b in ('default', 'memfd') for k in range(2)]))(world_scen(['default', 'memfd', 'force-inprocess'], 300, 6000)),
     'search': search_world,
-    'rule': ('the same seeded single-threaded program (same seed => same operation choices as long as results agree) of ~40 operations over up to 6 channels is executed on the '
+    'rule': ('receiver-set scripts (incl. bursts of more than 10 ready members and long per-member backlogs) on the OS and memfd builds compared with the set model; '
+             'the same seeded single-threaded program (same seed => same operation choices as long as results agree) of ~40 operations over up to 6 channels is executed on the '
              'OS transport, the memfd build and the in-process transport; each result sequence is compared with Ideal.run (hence pairwise); non-trivial = a message with handles '
              'was received; distinct = distinct (build, program)'),
     'explanation': 'three-way differential against the executable specification; the clauses of the specification are theorems; the refinement is not',
@@ -557,14 +565,16 @@ PROPS['C10'] = {
     'theorems': ['C10.C10_flag', 'C10.C10_try', 'C10.C10_timeout', 'C10.C10_no_poison', 'C10.C10_no_miss', 'C10.C10_wait', 'C10.C10_shape',
                  'Timed.trace_shape'],
     'builds': ['default', 'force-inprocess'],
-    'scenarios': timed_scen(['default', 'force-inprocess'], 120, 4000),
+    'scenarios': (lambda a: (lambda tier, seed: a(tier, seed) + [{'args': ['crash', '--shape', str(i), '--tier', tier, '--observer', 'timed']}
+                                                       for i in ((1, 2, 4) if tier == 'thorough' else (1,))]))(timed_scen(['default', 'force-inprocess'], 120, 4000)),
     'search': search_timed,
     'rule': ('seeded single-threaded scripts of 4..14 operations {send small / multi-packet (1..4 packets), clone sender, drop sender, try_recv, '
              'try_recv_timeout(d) with d in {0, 1us, 300us, 999us, 1ms, 1.5ms, 3ms, 12ms}, blocking recv when it cannot block}, then a drain, then an '
              'epilogue with a second thread acting 30 ms later: blocking recv must block until the message is sent (no poisoning), or try_recv_timeout(3 s) '
              'must return early with a small message / a multi-packet message / the disconnection; OS build: the fcntl/poll/recvmsg calls on the channel '
              'descriptor are compared with Timed.call, O_NONBLOCK is read back after every call; in-process build: results only; non-trivial = at least two '
-             'receive calls; distinct = distinct script'),
+             'receive calls; distinct = distinct script; crash --observer timed: try_recv_timeout(20 ms) polled while a sender process is killed before every counted call '
+             'of a multi-packet send (a truncated message with nothing complete behind it; the survivor\'s message comes 400 ms later): no call may take longer than 250 ms'),
     'explanation': ('mode/flag logic proved for every queue state, mode, poll answer and call sequence (flag restored, try never waits on the channel socket, '
                     'empty only after a poll time-out, no message lost, later blocking recv blocks); poll unit regenerated from the source; the real crate '
                     'compared call by call, with wall-clock lower/upper bounds and a second thread for the early-return and no-poison clauses'),
@@ -717,14 +727,16 @@ PROPS['C04'] = {
     'theorems': ['C04.C04_roundtrip', 'C04.C04_own', 'C04.C04_fd_order', 'C04.C04_queue_step', 'C04.C04_backlog', 'C04.C04_moved_from',
                  'Ideal.fifo_step', 'Ideal.fifo_run', 'Ideal.run_eq_runFrom', 'Wire.dec_enc'],
     'builds': ['default', 'memfd', 'force-inprocess'],
-    'scenarios': plus(chain_scen(['default', 'memfd', 'force-inprocess'], 160, 4000), wire_scen('enc', 800, 12000), world_scen(['default'], 200, 4000)),
+    'scenarios': plus(chain_scen(['default', 'memfd', 'force-inprocess'], 160, 4000), wire_scen('enc', 800, 12000), world_scen(['default'], 200, 4000),
+                      lambda tier, seed: [{'args': ['crash', '--shape', str(i), '--tier', tier]} for i in ((1, 2, 5) if tier == 'thorough' else (1,))]),
     'search': search_chain,
     'rule': ('chain: a receiver transferred over 1..5 hops inside carrier messages {0..2 senders before it, the receiver, 0..2 regions (lengths 0, 1, 4095, 4096, 4097, 10000), '
              '0..1 senders after it, padding of 33 bytes or 300 KB (multi-packet)} to the same thread, another thread or a spawned process and back, with 0..3 messages sent to '
              'its channel before, during and after every hop; every received sender is used once, regions compared, the final handle must yield every message ever sent, in '
              'order, and then report empty; the whole history is compared with Ideal.run (OS, memfd and in-process builds); wire enc: seeded typed values with endpoints at '
              'arbitrary positions sent through the real serialiser, bytes/attachment order compared with the model and every received endpoint probed with a nonce; world: '
-             'seeded programs with embedded senders / moved receivers / regions vs Ideal.run; non-trivial = at least one hop / a value with an endpoint; distinct = distinct history or value'),
+             'seeded programs with embedded senders / moved receivers / regions vs Ideal.run; crash: after a message with endpoints whose sender process was killed mid-send, the '
+             'next message\'s endpoints must be exactly its own (count and identity probe); non-trivial = at least one hop / a value with an endpoint; distinct = distinct history or value'),
     'explanation': ('round trip of any well-typed value with endpoints (positions, identity, own attachments only), descriptor order through the kernel, and the per-channel FIFO of '
                     'the specification over all programs — moving a receiver any number of times never changes what is queued — are theorems; the transports are compared with '
                     'the specification on transfer chains across threads and processes'),
